@@ -110,6 +110,9 @@ func solveAll(obs []*Obligation, timeoutS, seed, par int) {
 			defer wg.Done()
 			sem <- struct{}{}
 			defer func() { <-sem }()
+			if ob.Result != nil {
+				return
+			}
 			if ob.Goal == "true" && ob.Expect == VUnsat {
 				ob.Result = &SolveResult{Verdict: VUnsat, Solver: "simplifier"}
 				return
